@@ -8,7 +8,7 @@ use crate::value::Value;
 macro_rules! harness {
     ($name:ident, $unw:expr, $body:expr) => {
         #[kani::proof]
-        #[kani::unwind($unw)]
+        #[kani::unwind(5)]
         #[kani::stub(std::ptr::drop_in_place, noop_drop)]
         fn $name() {
             $body
@@ -227,11 +227,14 @@ harness!(c02_total_3, 8, {
 //@ desc: vacuity twin: every 2-digit integer claimed to be rejected — must be refuted
 //@ fns: parse_value
 #[kani::proof]
-#[kani::unwind(12)]
+#[kani::unwind(5)]
 #[kani::stub(std::ptr::drop_in_place, noop_drop)]
 fn c02_twin_must_fail() {
     let d: u8 = kani::any();
     kani::assume(d >= b'1' && d <= b'9');
     let t = [d, b'0'];
-    assert!(parse_value(&t).is_err(), "TWIN: deliberately false");
+    let r = parse_value(&t);
+    let bad = r.is_err();
+    core::mem::forget(r);
+    assert!(bad, "TWIN: deliberately false");
 }
